@@ -82,9 +82,11 @@ def arith2 (f : Rat → Rat → Res) (l r : Res) : Res :=
 
 def divide (a b : Rat) : Res := if b = 0 then .err .div0 else .num (a / b)
 
-/-- `a ^ b` for an integral exponent; 0 to a negative power is #DIV/0! -/
+/-- `a ^ b` for an integral exponent; 0 to a negative power is #DIV/0!.  `0 ^ 0` is left open (Excel
+    answers #NUM!, the usual convention and the library's POWER say 1; property C16 owns that choice). -/
 def power (a b : Rat) : Res :=
   if b.den ≠ 1 then .undef
+  else if a = 0 ∧ b = 0 then .undef
   else if a = 0 ∧ b < 0 then .err .div0
   else .num (a ^ b.num)
 
